@@ -167,7 +167,7 @@ PROPS = {
  "C19": {
   "module": "Zog.Props.C19",
   "theorems": COMMON + [P + "C19." + t for t in ["no_schema_writes", "validate_prim_frame", "second_run_same", "slice_default_is_copied"]],
-  "streams": [st("alias", 2500, 100000), eng(1500, 50000), eng(1500, 50000, "prepop")],
+  "streams": [st("alias", 2500, 100000), eng(1500, 50000), eng(1500, 50000, "prepop"), st("front", 400, 10000)],
   "trusted_base": ENGINE_TB + ["Go memory aliasing is not expressible in the value model: destination/schema sharing is decided by the S-alias stream on the real code (second-run equality, input snapshots) and the go/ast fact schemaWrites = []"],
   "assumptions": ENGINE_ASSUME,
  },
